@@ -188,7 +188,8 @@ def gen_rem_script(rng, name, max_ops=40):
                 for RR in rng.sample(range(3), 3):
                     lines.append("do rremove %d %d" % (RR, h))
             else:
-                lines.append("do rremove %d %d" % (R, rng.randint(0, max(0, issued))))
+                # through the event's own key, an equivalent key (custom Map policy), or for another event
+                lines.append("do %s %d %d" % (rng.choice(["rremove", "rremove", "rremoveeq", "rremoveother"]), R, rng.randint(0, max(0, issued))))
         elif r < 0.56:
             lines.append("do rreset %d" % R)
         elif r < 0.62:
@@ -346,12 +347,15 @@ def rem_oracle(script, canon):
         return "implementation stopped after %d of %d commands" % (len(res), len(cmds))
     via, direct, removed_direct = set(), set(), set()
     live_rem = set()
+    resp = {}       # remover -> the listeners it is responsible for (added through it, or taken over by move / swap)
     for i, c in enumerate(cmds):
         r = res[i]
+        R = int(c[1]) if len(c) > 1 and c[0].startswith("r") and c[1].lstrip("-").isdigit() else None
         ids_now = set(x for v in states[i].values() for x in v)
         ids_before = set(x for v in states[i - 1].values() for x in v) if i else set()
         if c[0] in ("rappend", "rprepend", "rinsert") and r.startswith("h"):
             via.add(int(r[1:]))
+            resp.setdefault(R, set()).add(int(r[1:]))
         elif c[0] == "append" and r.startswith("h"):
             direct.add(int(r[1:]))
         elif c[0] == "remove" and r == "true":
@@ -359,14 +363,30 @@ def rem_oracle(script, canon):
         elif c[0] == "rremoveheld":
             if r == "true":
                 return "the remover reported that listener %s was attached although it had just been detached directly" % c[3]
-        elif c[0] == "rremove":
+        elif c[0] == "rremoveother":
+            if r == "true":
+                return "removal for another event reported that listener %s was attached" % c[2]
+            if c[2].isdigit() and int(c[2]) in ids_before and int(c[2]) not in ids_now:
+                return "removal for another event detached listener %s" % c[2]
+        elif c[0] in ("rremove", "rremoveeq"):
             h = int(c[2])
+            if r == "false" and h in ids_before and h in resp.get(R, ()):
+                return "%s through remover %d reported that listener %d was not attached, but it was (and the remover is responsible for it)" % (c[0], R, h)
+            if r == "true":
+                resp.get(R, set()).discard(h)
             if r == "true" and h in ids_now:
                 return "rremove reported success but listener %d is still attached" % h
             if r == "true" and h not in ids_before:
                 return "rremove reported that listener %d was attached, but it was not (detached earlier)" % h
             if r == "false" and h in ids_before and h not in ids_now:
                 return "rremove reported failure but detached listener %d" % h
+        if r == "unit" and c[0] in ("rreset", "rtarget", "rdestroy"):
+            resp[R] = set()
+        if r == "unit" and c[0] in ("rmovector", "rmoveassign") and int(c[2]) != R:
+            resp[R] = resp.get(int(c[2]), set())
+            resp[int(c[2])] = set()
+        if r == "unit" and c[0] == "rswap":
+            resp[R], resp[int(c[2])] = resp.get(int(c[2]), set()), resp.get(R, set())
         if c[0] == "rnew" and r == "unit":
             live_rem.add(int(c[1]))
         if c[0] == "rmovector" and r == "unit":
